@@ -686,6 +686,39 @@ def chk_payloads(ctx, env, ref, n):
     return out
 
 
+def address_leg(ctx, env, ref):
+    """addresses of both kinds (pay-to-pubkey-hash and pay-to-script-hash) on both networks: the string is Base58Check of
+    (the network's version byte for that kind, the 20 bytes), it decodes back to the 20 bytes, and each kind is recognised as itself"""
+    rng = ctx.rng
+    n = 0
+    hashes = [bytes(20), b'\xff' * 20, b'\x00' + b'\x01' * 19, b'\x80' + b'\x00' * 19] + [bytes(rng.getrandbits(8) for _ in range(20)) for _ in range(60)]
+    for ledger in (env.ledger, env.regtest):
+        for h in hashes:
+            for kind, make, prefix, is_own, is_other in (
+                    ('pubkey', ledger.hash160_to_address, ledger.pubkey_address_prefix, ledger.is_pubkey_address, ledger.is_script_address),
+                    ('script', ledger.hash160_to_script_address, ledger.script_address_prefix, ledger.is_script_address, ledger.is_pubkey_address)):
+                n += 1
+                ctx.count(('addr', type(ledger).__name__, kind, h), nontrivial=True)
+                rep = {'family': 'address', 'ledger': type(ledger).__name__, 'kind': kind, 'hash160': h.hex()}
+                try:
+                    with watchdog(20):
+                        got = make(h)
+                        want = ref.b58check_enc(bytes(prefix) + h)
+                        if got != want:
+                            ctx.violation(f'address-encoding:{kind}', f'{kind} address of {h.hex()} is {got!r}; Base58Check(version {bytes(prefix).hex()} + hash) is {want!r}', rep)
+                            continue
+                        if ledger.address_to_hash160(got) != h:
+                            ctx.violation(f'address-roundtrip:{kind}', f'address_to_hash160({got!r}) does not give the 20 bytes back', rep)
+                        if not is_own(got) or is_other(got):
+                            ctx.violation(f'address-kind:{kind}', f'{got!r} is not recognised as a {kind} address (or as the other kind too)', rep)
+                except Hang as e:
+                    ctx.violation('address-call-hangs', str(e), rep)
+                except Exception as e:  # pylint: disable=broad-except
+                    ctx.violation(f'address-call-raises:{type(e).__name__}', f'{type(e).__name__}: {e}', rep)
+    ctx.leg('B-address', cases=n)
+    return n
+
+
 def chk_leg(ctx, env, ref, cases):
     B = env.Base58
     ncase = nchar = 0
@@ -1099,6 +1132,7 @@ def run(ctx):
         nrep = timed('tree', tree_leg, ctx, env, ref, cases, make_seeds(ctx, 24 if ctx.thorough else 20, vseeds), 's')
         nrep += timed('base58', b58_leg, ctx, env, ref, cases)
         nrep += timed('base58check', chk_leg, ctx, env, ref, cases)
+        nrep += timed('address', address_leg, ctx, env, ref)
         nrep += timed('mnemonic', mnem_leg, ctx, env, cases)
         nrep += timed('chain', chain_leg, ctx, env, ref, cases, meta, 12 if ctx.thorough else 25)
         # longer histories on the smallest gaps: several use-then-top-up rounds, so a chain is extended when it already holds
